@@ -67,6 +67,13 @@ def gen(seed, tier="quick"):
     if rest < 0.08:
         om = [0.0, 0.0, 0.0]
     mot = [HOVER_OMEGA if ic.random() < 0.7 else 0.0] * 4
+    if ic.random() < 0.12:
+        # the simulator's own default situation: standing on the ground, rotors at rest, hover point a few
+        # metres up and to the side (ground contact model and motor spin-up are in the loop from t = 0)
+        sp = [sp[0], sp[1], ic.uniform(2.0, 5.0)]
+        p0 = [sp[0] + ic.uniform(-1.5, 1.5), sp[1] + ic.uniform(-1.5, 1.5), 0.0]
+        q = rm.quat_exp([0, 0, psi_sp + yaw_err])
+        vb, om, mot = [0.0, 0.0, 0.0], [0.0, 0.0, 0.0], [0.0] * 4
     return {
         "family": NAME, "seed": seed, "mode": mode, "sp": sp, "psi_sp": psi_sp,
         "x0": p0 + vb + q.tolist() + om + mot,
